@@ -308,11 +308,29 @@ def lockstep_list(fc, list_src, cursor):
     if first != cursor:
         # ... or with the very expression the cursor is initialised with, when that expression always designates the same
         # object (the partition's root): [root] and cursor = root written separately
-        first_is_start = first in ("self.partition.get_root()", "self.partition.root")
+        first_ast = inits[0][1][1].elts[0]
+
+        def designator(e):
+            if isinstance(e, (ast.Name, ast.Constant)):
+                return True
+            if isinstance(e, ast.Attribute):
+                return designator(e.value)
+            if isinstance(e, ast.Subscript):
+                return designator(e.value) and designator(e.slice)
+            if isinstance(e, ast.Call) and isinstance(e.func, ast.Attribute) and e.func.attr in ("get_root", "get_node_list") and not e.args and not e.keywords:
+                return designator(e.func.value)
+            return False
+        first_is_start = designator(first_ast)
         # the cursor's only definition outside the stepping loop must be that expression
         outside = [(n, r) for n, r in fc.defs_of(cursor) if not (r[0] == "assign" and CS._is_child_step(r[1], cursor)) and
                    not any(isinstance(p_, (ast.For, ast.While)) for p_ in _ancestors(fc.model, n.ast))]
-        if not (first_is_start and len(outside) == 1 and outside[0][1][0] == "assign" and norm_src(outside[0][1][1]) == first):
+        ok_start = first_is_start and len(outside) == 1 and outside[0][1][0] == "assign" and norm_src(outside[0][1][1]) == first
+        if ok_start:
+            # nothing the designator reads is rebound between the two initialisations (either order)
+            a_, b_ = sorted([init_node, outside[0][0]], key=lambda n_: n_.id)
+            rd = {x.id for x in ast.walk(first_ast) if isinstance(x, ast.Name)}
+            ok_start = not fc.stores_between(a_, b_, rd, ()) and not fc.growth_between(a_, b_, ())
+        if not ok_start:
             return False, "%s starts with %s, not with the cursor %s" % (list_src, first, cursor)
     muts = [n for n in fc.cfg.nodes if (list_src + "[]") in E.stored_locs(n) and n is not init_node]
     moves = [(n, r) for n, r in fc.defs_of(cursor) if fc.cfg.paths_avoiding(init_node, n, ())]
